@@ -287,6 +287,7 @@ def run(res: Results, idx: Index, tier: str) -> None:
     run_axis_role_params(res, idx)
     run_irfft_length_conservation(res, idx)
     run_priority_cascades(res, idx)
+    run_structured_param_fields(res, idx)
     _rule_i(res, idx, tier)
 
 
@@ -479,3 +480,60 @@ def run_priority_cascades(res: Results, idx: Index) -> None:
             res.unresolved("R-C01l", f"{rel}:{f.node.lineno}", key, "no loop-carried `acc = Where(c, v, acc)` fold found in the lowering", f.qualname)
             n += 1
     res.analysed["priority_cascades"] = n
+
+
+# ---------------------------------------------------------------------------------------------- R-C01m
+# structured primitive parameter -> (attribute of jax.lax holding the namedtuple, modules that lower primitives carrying it)
+STRUCT_PARAM_OWNERS = {
+    "ScatterDimensionNumbers": ("ScatterDimensionNumbers", ["scatter_utils.py", "scatter.py", "scatter_add.py", "scatter_mul.py", "scatter_min.py", "scatter_max.py", "scatter_sub.py"]),
+    "GatherDimensionNumbers": ("GatherDimensionNumbers", ["gather.py", "gather_compile.py", "gather_helpers.py"]),
+    "ConvDimensionNumbers": ("ConvDimensionNumbers", ["conv.py"]),
+}
+
+
+def run_structured_param_fields(res: Results, idx: Index) -> None:
+    """R-C01a decides that `dimension_numbers` is read; the value is a record whose fields each change what the primitive
+    computes.  A lowering that never looks at one of them computes the same model whatever that field says: vmap of
+    dynamic_update_slice binds scatter with operand_batching_dims=(0,), the scatter lowering read only the three classic
+    fields and wrote every row's window at the first row's offsets.  Every field of the installed JAX's record has to be
+    read (attribute or string key) somewhere in the modules that lower the primitives carrying it — to use it or to reject
+    it."""
+    res.rule("R-C01m", "every field of a structured dimension-numbers parameter is read by the modules that lower its primitives (used or rejected)", floor=10)
+    res.trusted.append("field names of jax.lax.{Scatter,Gather,Conv}DimensionNumbers of the installed jax (third-party reference)")
+    import jax.lax as _lax
+    LAX = "jax2onnx/plugins/jax/lax/"
+    n = 0
+    for sname, (attr, mods) in STRUCT_PARAM_OWNERS.items():
+        rec = getattr(_lax, attr, None)
+        fields = getattr(rec, "_fields", None)
+        if not fields:
+            raise AnalysisError(f"jax.lax.{attr} has no _fields (installed jax changed)")
+        read: Dict[str, str] = {}
+        for mn in mods:
+            m = idx.modules_by_rel.get(LAX + mn) if hasattr(idx, "modules_by_rel") and not callable(getattr(idx, "modules_by_rel")) else None
+            if m is None:
+                try:
+                    m = idx.module(LAX + mn)
+                except Exception:
+                    m = None
+            if m is None:
+                raise AnalysisError(f"{LAX + mn} not found (R-C01m owner table is stale)")
+            for x in ast.walk(m.tree):
+                if isinstance(x, ast.Assign) and len(x.targets) == 1 and isinstance(x.targets[0], ast.Tuple) and len(x.targets[0].elts) == len(fields) and "dimension_numbers" in src(x.value, 60):
+                    for f0 in fields:      # positional unpacking of the whole record
+                        read.setdefault(f0, f"{m.rel}:{x.lineno}")
+                if isinstance(x, ast.Attribute) and x.attr in fields and isinstance(x.ctx, ast.Load):
+                    read.setdefault(x.attr, f"{m.rel}:{x.lineno}")
+                elif isinstance(x, ast.Constant) and isinstance(x.value, str) and x.value in fields:
+                    par = getattr(x, "parent", None)
+                    if not isinstance(par, (ast.Expr, ast.JoinedStr)):     # a bare name used as key / in a tuple of keys; not a docstring or message
+                        read.setdefault(x.value, f"{m.rel}:{x.lineno}")
+        for f_ in fields:
+            n += 1
+            key = f"{LAX}{mods[0]}::{sname}::{f_}"
+            if f_ in read:
+                res.ok("R-C01m", read[f_], key, f"{sname}.{f_} is read", "")
+            else:
+                res.violation("R-C01m", f"{LAX}{mods[0]}:1", key, f"no module that lowers the primitives carrying {sname} ({', '.join(mods)}) ever reads its field `{f_}`: an equation whose {f_} is "
+                              "non-trivial (JAX's own batching rules produce them under vmap) is lowered as if the field were empty — a valid model that computes something else", "")
+    res.analysed["structured_param_fields"] = n
